@@ -115,6 +115,60 @@ def do_op(chart, twin, op, other):
         elif k == "str-events":
             for e in _events(chart):
                 str(e), repr(e)
+        elif k == "copy":
+            import copy
+            copy.copy(chart)
+            for e in list(_events(chart))[:40]:
+                copy.copy(e)
+            for _, dd in chart.instrument_tracks.items():
+                for _, t in dd.items():
+                    copy.copy(t)
+            copy.copy(chart.sync_track), copy.copy(chart.sync_track.bpm_events), copy.copy(chart.metadata)
+        elif k == "deepcopy":
+            import copy
+            copy.deepcopy(chart)
+        elif k == "pickle":
+            import pickle
+            pickle.loads(pickle.dumps(chart))
+        elif k == "iterate":
+            for inst in chart.instrument_tracks:
+                for diff in chart.instrument_tracks[inst]:
+                    t = chart.instrument_tracks[inst][diff]
+                    for seq in (t.note_events, t.star_power_events, t.track_events):
+                        list(seq), list(reversed(seq)), len(seq), seq[:2], (seq[0], seq[-1]) if seq else None
+            seqs = [bpm, chart.sync_track.time_signature_events, chart.sync_track.anchor_events, chart.global_events_track.text_events,
+                    chart.global_events_track.section_events, chart.global_events_track.lyric_events]
+            for seq in seqs:
+                list(seq), len(seq), list(reversed(seq))
+                if len(seq):
+                    seq[0], seq[-1], seq[0] in seq, seq.index(seq[-1]), seq.count(seq[0])
+            list(zip(bpm, bpm.events)), bpm[0:2] if hasattr(bpm, "__getitem__") else None
+        elif k == "introspect":
+            import dataclasses
+            import inspect
+            vars(chart), dir(chart)
+            for obj in [chart.sync_track, chart.global_events_track, chart.metadata, bpm] + list(_events(chart))[:30]:
+                dir(obj), vars(obj)
+                if dataclasses.is_dataclass(obj):
+                    dataclasses.fields(obj)
+                    try:
+                        dataclasses.asdict(obj)
+                    except Exception:  # noqa: BLE001
+                        pass
+                inspect.getmembers(obj)          # (evaluates every attribute, cached properties included)
+            for _, dd in chart.instrument_tracks.items():
+                for _, t in dd.items():
+                    inspect.getmembers(t), dataclasses.asdict(t) if False else None
+        elif k == "compare-events":
+            evs = list(_events(chart))
+            tw = list(_events(twin))
+            for a, b in zip(evs, tw):
+                a == b, a != b, hash(a) == hash(b)            # noqa: B015
+            for a in evs[:25]:
+                for b in evs[:25]:
+                    a == b                                     # noqa: B015
+            sorted(evs, key=lambda e: (int(e.tick), type(e).__name__))
+            evs[0] in evs, evs[0] == 5, evs[0] is None         # noqa: B015
         else:
             raise AssertionError("unknown op " + str(op))
         return "value"
@@ -203,8 +257,9 @@ def run_sequence(sid, ops, text, other, want=None):
         after = observe.digest(observe.obs_chart(chart))
         twin_after = observe.digest(observe.obs_chart(twin))
         try:
-            eq1 = bool(chart == twin) and bool(chart == untouched)
-            eq2 = bool(twin == chart) and bool(untouched == chart)
+            fresh = parse(text, want)         # a twin parsed just now: equality is with ANY identically parsed chart
+            eq1 = bool(chart == twin) and bool(chart == untouched) and bool(chart == fresh)
+            eq2 = bool(twin == chart) and bool(untouched == chart) and bool(fresh == chart)
         except Exception:  # noqa: BLE001
             eq1 = eq2 = False
         render_after = _render(chart)
